@@ -244,6 +244,22 @@ CHECKS = {
         note="Trusted: the harness scan that proposes epsilon-matches for large inputs (each is re-checked; a missed "
              "candidate would weaken, not falsify, the verdict). Sequences over A,C,G,T only.",
         ref="DESIGN.md §6 C14"),
+    "C15": dict(
+        technique="TLA+ stage contract of the pipeline over the abstract sorter checked by TLC; hit soundness and repeat "
+                  "recovery as TLA+ predicates (optimal region score from the AlignDP recurrence) evaluated by TLC on "
+                  "recorded runs of the real pipeline",
+        text="Pals.tla composes the filter, the external sorter (abstract machine of C11, two passes sharing one sorter) "
+             "and the merger: TLC checks that each pass merges exactly its own hits in order, and refutes an unsorted "
+             "sorter. The real pipeline (Optimise, BuildIndex, Align(false), Align(true)) runs on random 2-6 kb "
+             "backgrounds (20 kb thorough) with 1-3 planted repeats - exact, with substitutions, with small indels, both "
+             "strands, self and non-self - and PalsTrace.tla judges every hit (inside both sequences, both lengths >= "
+             "minimum, error <= 1 - minimum identity, and for a sample of hits score <= the optimal global alignment "
+             "score of its regions under +1/-3/-3) and requires every planted copy to be recovered by the pass of its "
+             "strand, and no trivial self hit.",
+        note="Trusted: the driver's planting of repeats and coordinate bookkeeping. The score bound is judged for a sample "
+             "of hits with regions <= 170 letters; recall is judged for copies >= 1.5 x minimum length with at most a third "
+             "of the allowed differences.",
+        ref="DESIGN.md §6 C15"),
 }
 
 NOT_YET = {}
